@@ -49,6 +49,13 @@ Theorem C15_lse_neginf (e0 : ext) (el : list ext) :
             e = NInf \/ exists r, e = Fin r /\ (r <= 0)%R.
 Proof. exact (lse_neginf e0 el). Qed.
 
+(* shift law with -inf entries present (finite shift c; -inf + c = -inf) *)
+Theorem C15_lse_neginf_shift (e0 : ext) (el : list ext) (c : R) :
+  no_bad (e0 :: el) -> fins (e0 :: el) <> nil ->
+  lse (Sc:=EOps) (e_add e0 (Fin c)) (map (fun a => e_add a (Fin c)) el)
+  = e_add (lse (Sc:=EOps) e0 el) (Fin c).
+Proof. exact (lse_neginf_shift e0 el c). Qed.
+
 (* the premise "at least one finite entry" cannot be dropped: all -inf gives NaN *)
 Theorem C15_lse_all_neginf_is_nan (el : list ext) :
   (forall a, In a el -> a = NInf) -> lse (Sc:=EOps) NInf el = Bad.
@@ -178,6 +185,43 @@ Theorem C15_uvr_capacitance_invertible rc (R : M O bs rc) :
   (uvr_I_V_inv_R_U (O:=O) (uvr_V_inv_R (O:=O) V (uvr_inv_R (O:=O) d nb R)) U : 'M[F]_k) \in unitmx.
 Proof. move=> uB uS; exact: uvr_capacitance_unit. Qed.
 
+(* the arguments of ln are positive, derived from positive definiteness (ln itself is
+   uninterpreted here; in the float/real reading it is applied inside its domain):
+   direct form, factorised form, det_R, and the V = U^T case with no premise on S *)
+Theorem C15_direct_logdet_guard (cov : M O d d) : spd (cov : 'M[F]_d) -> 0 < (mdet cov : F).
+Proof. exact: direct_logdet_guard. Qed.
+
+Theorem C15_uvr_logdet_guard rc (R : M O bs rc) :
+  (forall t, (t < nb)%N -> blk R t \in unitmx) ->
+  spd (assembled_S (O:=O) U V R : 'M[F]_d) -> 0 < (uvr_det_S (O:=O) U V R : F).
+Proof. exact: uvr_logdet_guard. Qed.
+
+Theorem C15_uvr_det_R_guard rc (R : M O bs rc) :
+  (forall t, (t < nb)%N -> spd (blk R t)) -> 0 < (uvr_det_R (O:=O) nb R : F).
+Proof. exact: uvr_det_R_guard. Qed.
+
+Theorem C15_uvr_logdet_guard_sym_factor rc (R : M O bs rc) :
+  (forall t, (t < nb)%N -> spd (blk R t)) ->
+  0 < (uvr_det_S (O:=O) U (mtr (m:=d) (n:=k) U) R : F).
+Proof. exact: uvr_logdet_guard_sym_factor. Qed.
+
+(* the clause as worded: the factorised variants return the same values as the direct
+   ones for the assembled S -- densities per evaluation point, log-densities as whole lists *)
+Theorem C15_density_uvr_eq_direct rc (R : M O bs rc) :
+  (forall t, (t < nb)%N -> blk R t \in unitmx) ->
+  (assembled_S (O:=O) U V R : 'M[F]_d) \in unitmx ->
+  forall i, (i < b)%N ->
+    List.nth i (density_uvr (O:=O) input mean U V R) (t_exp tr 0) =
+    List.nth i (density_mat (O:=O) input mean (assembled_S (O:=O) U V R)) (t_exp tr 0).
+Proof. exact: density_uvr_eq_direct. Qed.
+
+Theorem C15_log_density_uvr_eq_direct_batch rc (R : M O bs rc) :
+  (forall t, (t < nb)%N -> blk R t \in unitmx) ->
+  (assembled_S (O:=O) U V R : 'M[F]_d) \in unitmx ->
+  log_density_uvr (O:=O) input mean U V R =
+  log_density_mat (O:=O) input mean (assembled_S (O:=O) U V R).
+Proof. exact: log_density_uvr_eq_mat. Qed.
+
 (* densities are the exponentials of the log-densities, entry by entry, one per evaluation point *)
 Theorem C15_density_uvr_exp rc (R : M O bs rc) i :
   List.nth i (density_uvr (O:=O) input mean U V R) (t_exp tr 0) =
@@ -248,11 +292,29 @@ Example C15_concrete_shared_Q :
             (@log_density_mat QM 6 1 input mean S) = true.
 Proof. vm_compute. reflexivity. Qed.
 
+(* the executable inverse / determinant of the list instance (Gauss-Jordan with partial
+   pivoting, ListOps.linv / ldet -- what the correspondence check runs in doubles) against
+   exact rational results, sizes 1..6, with zero leading entries so that rows are swapped *)
+Example C15_gauss_jordan_exact_Q :
+  let A1 := [:: [:: -1#1]]%Q in
+  let A2 := [:: [:: 0#1; -2#1]; [:: -4#1; -1#1]]%Q in
+  let A3 := [:: [:: 0#1; 1#3; 1#2]; [:: 1#1; 0#1; -1#2]; [:: 1#1; 0#1; -1#3]]%Q in
+  let A4 := [:: [:: 0#1; -1#1; 1#3; 1#3]; [:: 2#1; 0#1; -1#1; 4#1]; [:: -2#1; 4#3; -2#1; -1#1]; [:: -4#1; 3#2; 2#1; -1#1]]%Q in
+  let A5 := [:: [:: 0#1; 0#1; -1#1; 2#3; 1#3]; [:: -3#2; 0#1; -1#1; 2#3; -2#1]; [:: -3#2; -3#1; 3#1; 0#1; 1#1]; [:: 3#1; 4#1; 3#1; 3#1; 3#2]; [:: -3#1; -2#1; 2#3; 1#1; 0#1]]%Q in
+  let A6 := [:: [:: 0#1; 2#3; -2#1; 2#1; -1#1; -1#3]; [:: 2#1; 0#1; 1#3; 1#1; 1#1; 1#1]; [:: -2#1; 1#1; -1#1; -3#2; 1#3; 4#3]; [:: -1#1; -4#1; -2#3; -2#1; 2#1; 1#3]; [:: -1#1; 4#3; -1#1; 1#1; -2#1; 1#1]; [:: 0#1; -2#1; 3#1; -3#1; 0#1; -1#1]]%Q in
+  let ok n A D := qmx_eqb (lmul QOps n n n A (linv QOps n A)) (lid QOps n)
+                  && qmx_eqb (lmul QOps n n n (linv QOps n A) A) (lid QOps n)
+                  && Qeq_bool (ldet QOps n A) D in
+  ok 1%N A1 (-1#1)%Q && ok 2%N A2 (-8#1)%Q && ok 3%N A3 (-1#18)%Q && ok 4%N A4 (-376#9)%Q
+  && ok 5%N A5 (-2419#36)%Q && ok 6%N A6 (2299#27)%Q = true.
+Proof. vm_compute. reflexivity. Qed.
+
 Print Assumptions C15_lse_spec.
 Print Assumptions C15_lse_shift.
 Print Assumptions C15_lse_max_is_entry.
 Print Assumptions C15_lse_no_overflow.
 Print Assumptions C15_lse_neginf.
+Print Assumptions C15_lse_neginf_shift.
 Print Assumptions C15_lse_all_neginf_is_nan.
 Print Assumptions C15_det_lemma.
 Print Assumptions C15_capacitance_invertible.
@@ -267,6 +329,12 @@ Print Assumptions C15_uvr_eq_direct_shared.
 Print Assumptions C15_sym_factor_assembled_spd.
 Print Assumptions C15_uvr_eq_direct_sym_factor.
 Print Assumptions C15_uvr_capacitance_invertible.
+Print Assumptions C15_direct_logdet_guard.
+Print Assumptions C15_uvr_logdet_guard.
+Print Assumptions C15_uvr_det_R_guard.
+Print Assumptions C15_uvr_logdet_guard_sym_factor.
+Print Assumptions C15_density_uvr_eq_direct.
+Print Assumptions C15_log_density_uvr_eq_direct_batch.
 Print Assumptions C15_density_uvr_exp.
 Print Assumptions C15_density_exp.
 Print Assumptions C15_batch_lengths.
